@@ -53,10 +53,17 @@ TreesForest == { Forest, ForestNear }
 
 \* a tree that makes every negative configuration fail: two files generated concurrently, one failing file
 TreesNeg == { { F(R, "a.templ", "good", 1), F(R, "b.templ", "good", 1), F(<<"d">>, "a.templ", "badgo", 1) } }
+\* failing files first, as many as workers (W = 1: first tree, W = 2: second tree), then a file that must still be generated
+TreesNegSlot == { { F(R, "a.templ", "unparsable", 1), F(R, "b.templ", "good", 1) },
+                  { F(R, "a.templ", "unparsable", 1), F(R, "b.templ", "unparsable", 1), F(<<"d">>, "a.templ", "good", 1) } }
 \* focused three- and four-file trees (all schedules with W up to 3 stay affordable in the quick tier)
 TreesFocus == { { F(R, "a.templ", "good", 1), F(R, "b.templ", "unparsable", 1), F(<<"d">>, "a.templ", "good", 1) },
                 { F(R, "a.templ", "good", 1), F(R, "a_templ.go", "junk", 2), F(R, "b_templ.go", "junk", 2), F(R, "o.go", "src", 1) },
-                { F(R, "a.templ", "badgo", 1), F(R, "b.templ", "good", 1), F(<<"d">>, "a.templ", "good", 1), F(<<"_x">>, "a.templ", "good", 1) } }
+                { F(R, "a.templ", "badgo", 1), F(R, "b.templ", "good", 1), F(<<"d">>, "a.templ", "good", 1), F(<<"_x">>, "a.templ", "good", 1) },
+                \* as many failing files as workers (W = 2) in front of a file that must still be generated
+                { F(R, "a.templ", "unparsable", 1), F(R, "b.templ", "badgo", 1), F(<<"d">>, "a.templ", "good", 1) } }
+\* one file that is generated (negative config: nondeterministic generator)
+TreesNegNondet == { { F(R, "a.templ", "good", 1) } }
 \* reduced universe for four files
 OptsFour == <<
     { F(R, "a.templ", "good", 1), F(R, "a.templ", "unparsable", 1) },
